@@ -18,7 +18,9 @@ if REPO == "/repo":
 else:
     HARNESS_DIR = os.path.join(WORK, "harness-" + hashlib.sha1(REPO.encode()).hexdigest()[:10])
 HARNESS_BIN = os.path.join(HARNESS_DIR, "target", "debug", "aidl-verif-harness")
-EVID = os.path.join(VERIF, "evidence")
+# experiments (seeded changes, other checkouts) write their evidence elsewhere, never into /verif/evidence
+EVID = os.environ.get("VERIF_EVIDENCE_DIR") or (os.path.join(VERIF, "evidence") if os.environ.get("VERIF_REPO", "/repo") == "/repo"
+                                                  else os.path.join(VERIF, "work", "evidence-scratch"))
 REPLAYS = os.path.join(VERIF, "replays")
 TLA_CP = "/opt/veriftools/tla/tla2tools.jar:/opt/veriftools/tla/CommunityModules-deps.jar"
 NPROC = int(os.environ.get("VERIF_NPROC", "14"))
